@@ -266,3 +266,98 @@ def entry_encoding(ctx, res, rule):
                   "every entry is varint(shared) varint(non_shared) varint(value_len) suffix value with truly shared bytes, restart points and the block trailer as in the format table",
                   "; ".join(problems[:2]), add.loc(add.body))
     res.tables.setdefault("entry_encoding_traces", {})[rule] = ntr
+
+
+def reuse(ctx, res, rule):
+    """A builder the writer has finished a block with is fit for the next block (C01.R3, C09.R3).
+
+    From the writer's own paths: the calls it makes on a builder after block_builder_finish, up to the end of the function
+    (today: block_builder_reset; none when finish resets the builder itself).  Then, with the allocation-aware interpreter:
+    init, three adds, finish, exactly those calls, two more adds, finish - and the second block, read by the real block
+    iterator (rules/readrule.py), must hold the two new entries and nothing else.  A builder left finished trips its own
+    assertion on the next add; a reset that forgets the restart array or the counter yields a block the reader parses
+    differently.  Either shows here, whichever function holds the state."""
+    from . import readrule
+    prog, cg = ctx.prog, ctx.cg
+    WU = "mtbl/writer.c"
+    init = prog.need("block_builder_init", U)
+    add = prog.need("block_builder_add", U)
+    fin = prog.need("block_builder_finish", U)
+    res.floor(rule, 2)
+    bbfuncs = set(g.name for g in prog.unit_funcs(U))
+    seqs = {}
+    for g in prog.unit_funcs(WU):
+        if not g.calls("block_builder_finish"):
+            continue
+        res.saw(g)
+        for p in APE.run(prog, cg, g, bound=APE.BOUND).paths:
+            if p.end != "exit":
+                continue
+            evs = [e for e in p.events if e.kind == "call"]
+            for i, e in enumerate(evs):
+                if e.a != "block_builder_finish" or not e.b:
+                    continue
+                after = tuple(x.a for x in evs[i + 1:] if x.a in bbfuncs and x.b and x.b[0] == e.b[0] and len(x.b) == 1)
+                seqs.setdefault((g.name, strip_tags(APE.vstr(e.b[0]))), set()).add(after)
+    if not seqs:
+        raise BrokenAnalysis("no function of the writer finishes a block builder")
+    for (gname, who), alts in sorted(seqs.items()):
+        for after in sorted(alts):
+            problems = []
+            for interval in (2, 16):
+                I = M.MemInterp(prog, U)
+                I.max_paths = 20000
+                I.fuel = 600
+                st = I.new_state()
+                try:
+                    (st, b), = I.call(st, init, [interval])[:1]
+                    states = [st]
+                    for k, (lk, lv) in enumerate([(2, 1), (3, 0), (1, 2)]):
+                        nxt = []
+                        for s in states:
+                            nxt += [s2 for s2, _ in I.call(s, add, [b, B.Ptr(("p", 10 + 2 * k), 0), lk, B.Ptr(("p", 11 + 2 * k), 0), lv])]
+                        states = nxt[:3]
+
+                    def finish(s):
+                        h = s.ext["heap"]
+                        k0 = h.next
+                        h.allocs[k0] = [8, True, True]
+                        h.allocs[k0 + 1] = [8, True, True]
+                        h.next = k0 + 2
+                        return [(s2, k0) for s2, _ in I.call(s, fin, [b, B.Ptr(("A", k0), 0), B.Ptr(("A", k0 + 1), 0)])]
+                    states = [x for s in states for x in finish(s)][:3]
+                    for fname in after:
+                        g2 = prog.need(fname, U)
+                        states = [(s2, k0) for s, k0 in states for s2, _ in I.call(s, g2, [b])][:3]
+                    second = [(4, 2), (5, 1)]
+                    st2 = [s for s, _k in states]
+                    for k, (lk, lv) in enumerate(second):
+                        nxt = []
+                        for s in st2:
+                            nxt += [s2 for s2, _ in I.call(s, add, [b, B.Ptr(("p", 30 + 2 * k), 0), lk, B.Ptr(("p", 31 + 2 * k), 0), lv])]
+                        st2 = nxt[:3]
+                    for s in st2[:2]:
+                        for s2, k0 in finish(s):
+                            out = s2.ext["heap"].pcells.get((("A", k0), 0))
+                            size = readrule._num(s2, B.Ptr(("A", k0 + 1), 0))
+                            if not isinstance(out, B.Ptr) or size is None:
+                                problems.append("interval %d: the second finish does not hand out a block" % interval)
+                                continue
+                            # what the reader must see: the two new entries; a key byte counted as shared must be known equal
+                            expect = []
+                            prev = None
+                            for k, (lk, lv) in enumerate(second):
+                                kb, vb = ("p", 30 + 2 * k), ("p", 31 + 2 * k)
+                                expect.append(([tuple(("d", kb, i, j) for j in range(8)) for i in range(lk)],
+                                               [tuple(("d", vb, i, j) for j in range(8)) for i in range(lv)], lv))
+                            I2 = M.MemInterp(prog, readrule.BL)
+                            I2.max_paths = 20000
+                            I2.fuel = 600
+                            pr, _tr = readrule.read_block(I2, prog, s2, out, size, expect,
+                                                          "second block of a reused builder (interval %d, after %s)" % (interval, "+".join(after) or "finish alone"))
+                            problems += pr
+                except M.MemFault as e:
+                    problems.append("interval %d: %s" % (interval, e))
+            res.check(not problems, rule, "%s:%s:reuse-after-finish%s" % (gname, who, "+" + "+".join(after) if after else ""),
+                      "after finish%s the builder produces a block holding exactly the next entries" % (" and " + ", ".join(after) if after else ""),
+                      "a finished builder is not fit for the next block: %s" % "; ".join(problems[:2]), prog.need(gname, WU).loc(prog.need(gname, WU).body))
